@@ -12,7 +12,8 @@ Two families of cases (part (a) of the design, a simulated DHT network, is a sep
            compared with the statement; closest_nodes is compared with a brute-force sort of everything stored.
 ``trie``   ``ipv8.dht.trie.Trie`` in lock-step with a dict: every subset of the 15 bit-string keys of length <= 3 is
            inserted and deleted again in seeded orders (complete enumeration), plus seeded random set/del sequences
-           over keys of length <= 5; every accessor is compared for every query key of length <= L+1 after each step.
+           over keys of length <= 5; every accessor is compared for every query key of length <= L+1 (subset cases:
+           after the last insertion and after every deletion; random cases: after every step).
 
 Every oracle has its own violation key and they are evaluated independently (``first_only=False``): a failing
 ``generate_id`` does not stop the tree-shape / closest-nodes oracles.
@@ -36,10 +37,12 @@ RULE = ("table case = own id + bucket capacity + explicit op list (add with id/k
         "last_query, set attributes of a stored node, clock tick, remove_bad_nodes, closest(target, k-list, exclude), "
         "lookup) drawn from random.Random('c14/<seed>'); ids drawn from {prefix of own id of seeded length + random "
         "tail, cluster sharing 20..156 bits with own id, own id with last 1..6 bits varied, own id itself, clusters off "
-        "the own path, uniform, re-add of a known id with a new address, known public key under a new id}; quick <= 300 "
+        "the own path, uniform, re-add of a known id with a new address, known public key under a new id}, the shared "
+        "prefix capped per case at 6/12/24/48/160 bits so that trees of every depth occur; capacity 8 (sometimes 1..5, 16); "
+        "quick <= 300 "
         "steps, thorough <= 2000. trie case = one subset of the 15 keys of length <= 3 (all 32768 enumerated) inserted "
-        "then deleted in seeded order, or a seeded random set/del sequence over keys of length <= 5. "
-        "(compared after the last insertion and after every deletion) "
+        "then deleted in seeded order (compared with the dict after the last insertion and after every deletion), or a "
+        "seeded random set/del sequence over keys of length <= 5 (compared after every step). "
         "Non-trivial table history = at least 3 bucket splits; distinct = distinct final tree shape "
         "(sorted (prefix length, last bit, size) of all buckets) ; non-trivial trie case = >= 2 keys; distinct = distinct "
         "op sequence.")
@@ -276,13 +279,24 @@ def _trie_random_case(seed: int, tier: str) -> dict:
 
 def cases(tier: str, base_seed: int):  # noqa: ANN201
     masks = iter(range(1 << len(KEYS3)))
-    per_round = 16 if tier == "quick" else 4
+    per_round = 32 if tier == "quick" else 16   # the 32768 subsets are used up within the tier's budget
     for i in itertools.count():
         yield _table_case(base_seed + i, tier)
         for m in itertools.islice(masks, per_round):
             yield _trie_subset_case(m)
         if i % 2 == 0:
             yield _trie_random_case(base_seed + i, tier)
+
+
+def simplify(case: dict):  # noqa: ANN201
+    """Called by the shrinker after ddmin: neutral node attributes, no scheduling knobs."""
+    if case.get("scenario") != "table":
+        return
+    neutral = {"rtt": 0.0, "failed": 0, "resp": None, "q": None}
+    cand = dict(case)
+    cand["ops"] = [{**op, **neutral} if op["op"] == "add" else op for op in case["ops"]]
+    if cand["ops"] != case["ops"]:
+        yield cand
 
 
 # --------------------------------------------------------------------------- helpers shared by execute
@@ -395,8 +409,8 @@ def _execute_table(case: dict) -> dict:  # noqa: C901, PLR0912, PLR0915
         for k, b in items:
             if b.prefix_id != k:
                 c.violate("partition", "bucket_key_prefix_mismatch", f"{where}: trie key {k!r} holds bucket with prefix_id {b.prefix_id!r}")
-            if len(b.nodes) > b.max_size or b.max_size != max_size:
-                c.violate("capacity", "bucket_over_capacity", f"{where}: bucket {k!r} holds {len(b.nodes)} nodes, max_size {b.max_size} (table capacity {max_size})")
+            if len(b.nodes) > b.max_size:
+                c.violate("capacity", "bucket_over_capacity", f"{where}: bucket {k!r} holds {len(b.nodes)} nodes, max_size {b.max_size}")
             if k and not my_bits.startswith(k[:-1]):
                 c.violate("split_on_own_path", "split_off_own_path",
                           f"{where}: bucket {k!r} exists, so {k[:-1]!r} was split, but own id starts with {my_bits[:len(k)]!r}")
@@ -534,8 +548,9 @@ def _execute_table(case: dict) -> dict:  # noqa: C901, PLR0912, PLR0915
             where = f"step {st['step']} ({tag}): closest_nodes({target.hex()}, max_nodes={k}, exclude={ex_id.hex() if ex_id else None})"
             got_ids = [n.id for n in got]
             exp_ids = [n.id for n in exp]
+            width = 40 if max(len(got_ids), len(exp_ids)) <= 3 else 10
             desc = (f"{where} over {len(nodes)} stored / {len(cand)} eligible nodes returned {len(got)}: "
-                    f"{[i.hex()[:10] for i in got_ids][:8]} expected {len(exp)}: {[i.hex()[:10] for i in exp_ids][:8]}")
+                    f"{[i.hex()[:width] for i in got_ids][:8]} expected {len(exp)}: {[i.hex()[:width] for i in exp_ids][:8]}")
             if any(not live(n) for n in got):
                 c.violate("closest", "closest_nodes_returns_bad_node", desc)
             elif ex_id is not None and ex_id in got_ids:
@@ -606,7 +621,7 @@ def _execute_table(case: dict) -> dict:  # noqa: C901, PLR0912, PLR0915
             after = {id(n) for n in stored(items)}
             lost = [v for key, v in before.items() if key not in after]
             for n, k, size in lost:
-                if owner_before is None or k != owner_before[0] or not was_full:
+                if live(n) and (owner_before is None or k != owner_before[0] or not was_full):
                     c.violate("no_collateral_loss", "add_dropped_unrelated_node",
                               f"step {i}: add({ident.hex()}) made node {n.id.hex()} vanish from bucket {k!r} "
                               f"({size} nodes; bucket owning the new id: {owner_before[0] if owner_before else None!r}, full={was_full})")
@@ -814,8 +829,8 @@ def _execute_trie(case: dict) -> dict:  # noqa: C901, PLR0912, PLR0915
                 c.violate("trie_model", "trie_accepts_key_outside_alphabet", f"step {i}: trie[{key!r}] accepted (alphabet {alphabet!r})")
             except DHTError:
                 c.probe("trie_bad_key_refused")
-            except Exception as e:  # noqa: BLE001
-                c.violate("trie_model", f"trie_setitem_raised_{type(e).__name__}", f"step {i}: trie[{key!r}] raised {e!r}")
+            except Exception:  # noqa: BLE001, S110
+                pass           # refused with another exception type: still a refusal
             log.append("b")
         elif kind == "del":
             n_before = count_nodes()
